@@ -528,6 +528,23 @@ class CompGen:
       return ["assign", path, e] if e is not None else None
     return ["assign", path, self.const(t) if self.c.random() < 0.7 else self.small_int(t)]
 
+  def tmp_copy_and_patch(self, env):
+    """t = s.x[0:W] (a WHOLE-width slice: a copy of the signal's value), then t[lo:hi] = e in place: the
+    temporary must be a copy, never an alias of the signal's storage.  -> statements or []"""
+    c = self.c
+    cands = [a for a in self.atoms if isinstance(a.t, int) and a.w >= 2 and a.path[-1][0] in ("a", "i")]
+    if not cands or self.P["translatable"]:
+      return []
+    a = c.choice(cands)
+    name = "t%d" % self.ntmp
+    self.ntmp += 1
+    lo = c.randint(0, a.w - 1)
+    hi = c.randint(lo + 1, a.w)
+    out = [["tmp", name, ["rd", a.path + [["s", 0, a.w]], a.w]],
+           ["tmpset", name, lo, hi, self.expr(hi - lo, 1, env)]]
+    env["tmps"][name] = a.w
+    return out
+
   def gen_comb_block(self, targets):
     """targets: list of (path, type).  Returns item or None."""
     c, P = self.c, self.P
@@ -544,6 +561,8 @@ class CompGen:
           st.append([name + "b"])
           env["tmps"][name + "b"] = w
         stmts.append(st)
+    if c.random() < P.get("p_tmp_patch", 0.12):
+      stmts.extend(self.tmp_copy_and_patch(env))
     own_driven = []
     for (path, t) in targets:
       use_if = c.random() < P["p_if"]
@@ -908,6 +927,8 @@ class CompGen:
             st.append([name + "b"])
             env["tmps"][name + "b"] = w
           body.append(st)
+      if c.random() < P.get("p_tmp_patch", 0.2):
+        body.extend(self.tmp_copy_and_patch(env))
       for (p, t, key) in group:
         e = self.value_expr(t, P["expr_depth"], env)
         if e is None:
